@@ -168,6 +168,7 @@ type purity struct {
 	stats      struct{ activations, writes, freshWrites int }
 	writeSites map[ssa.Instruction]bool
 	lastRet    aval
+	cbShared   map[string]*effect // user callbacks handed a slice into prestate memory
 }
 
 type memoEntry struct {
@@ -177,7 +178,7 @@ type memoEntry struct {
 
 func newPurity(p *Prog) *purity {
 	return &purity{p: p, res: p.resolver(), nodes: map[string]*pnode{}, heap: map[*pnode]map[string]locset{},
-		leaves: map[types.Type][]leaf{}, effects: map[string]*effect{}, undec: map[string]*effect{}, writeSites: map[ssa.Instruction]bool{}}
+		leaves: map[types.Type][]leaf{}, effects: map[string]*effect{}, undec: map[string]*effect{}, writeSites: map[ssa.Instruction]bool{}, cbShared: map[string]*effect{}}
 }
 
 func (pu *purity) node(kind nodeKind, key string) *pnode {
@@ -1053,6 +1054,7 @@ func (a *activation) call(ci ssa.CallInstruction) aval {
 				break
 			}
 			// user-supplied callback: documented contract - must not mutate or retain its arguments
+			a.noteCallbackArgs(ci, args)
 			out.merge("", a.freshResult(ci, resType))
 		case nGlob:
 			// function table in a package-level variable: resolve by signature over address-taken functions
@@ -1064,6 +1066,7 @@ func (a *activation) call(ci ssa.CallInstruction) aval {
 	}
 	if len(fv["#box"]) > 0 {
 		known = true // function value held in a prestate interface (Instruction.Fn): user callback
+		a.noteCallbackArgs(ci, args)
 		out.merge("", a.freshResult(ci, resType))
 	}
 	if !known {
@@ -1076,6 +1079,33 @@ func (a *activation) call(ci ssa.CallInstruction) aval {
 		}
 	}
 	return out
+}
+
+// noteCallbackArgs records user callbacks that are handed a slice whose backing array is memory that existed
+// before the operation (column storage, an argument): the callback's contract says it must not keep its
+// arguments, but a slice argument is routinely sorted or scratched in place (a median), and through a view into
+// storage that rewrites the frame and every frame sharing the column.
+func (a *activation) noteCallbackArgs(ci ssa.CallInstruction, args []aval) {
+	pu := a.pu
+	cargs := ci.Common().Args
+	for i, av := range args {
+		if i >= len(cargs) {
+			break
+		}
+		if _, isSlice := cargs[i].Type().Underlying().(*types.Slice); !isSlice {
+			continue
+		}
+		for l := range av[""] {
+			if l.n.kind != nIn {
+				continue
+			}
+			pos := pu.p.instrPos(ci)
+			k := pu.root + "|" + pos + "|" + l.n.key
+			if pu.cbShared[k] == nil {
+				pu.cbShared[k] = &effect{Root: pu.root, Pos: pos, Fn: fname(ci.Parent()), What: "a user-supplied function is called with a slice of memory that existed before the operation", Target: l.n.key + l.rel, Chain: append([]string(nil), pu.stack...)}
+			}
+		}
+	}
 }
 
 // isOptionFuncType: a named function type declared in one of the module's config packages
@@ -1365,6 +1395,7 @@ type purityResult struct {
 	retGlob map[string]string        // root -> package-level object its result may alias
 	outlive map[*ssa.Function]string // closures reachable from some root's result or stored into prestate / package-level state -> root
 	retIn   map[string]string        // root -> client-writable part of the result that aliases memory that existed before
+	cbIn    map[string][]*effect     // root -> user callbacks handed a slice into prestate memory
 	stats   struct{ activations, writes, freshWrites, writeSites int }
 }
 
@@ -1456,7 +1487,7 @@ func clientVisiblePath(path string) bool {
 // purityResult analyses the public roots whose name passes filter (nil = all); results are cached per root.
 func (p *Prog) purityResult(filter func(string) bool) *purityResult {
 	if p.pur == nil {
-		p.pur = &purityResult{effects: map[string][]*effect{}, globals: map[string][]*effect{}, undec: map[string][]*effect{}, iters: map[string]int{}, retGlob: map[string]string{}, retIn: map[string]string{}, outlive: map[*ssa.Function]string{}}
+		p.pur = &purityResult{effects: map[string][]*effect{}, globals: map[string][]*effect{}, undec: map[string][]*effect{}, iters: map[string]int{}, retGlob: map[string]string{}, retIn: map[string]string{}, outlive: map[*ssa.Function]string{}, cbIn: map[string][]*effect{}}
 		p.pur.roots = publicRoots(p)
 	}
 	r := p.pur
@@ -1495,6 +1526,9 @@ func (p *Prog) purityResult(filter func(string) bool) *purityResult {
 	}
 	for _, e := range pu.undec {
 		r.undec[e.Root] = append(r.undec[e.Root], e)
+	}
+	for _, e := range pu.cbShared {
+		r.cbIn[e.Root] = append(r.cbIn[e.Root], e)
 	}
 	r.stats.activations += pu.stats.activations
 	r.stats.writes += pu.stats.writes
@@ -1668,6 +1702,20 @@ func init() {
 					c.undecided(name+"|result", p.pos(fn.Pos()), fmtEffects(es))
 				} else {
 					c.okTrivial(name+"|result", p.pos(fn.Pos()), "no client-writable part of the result is prestate")
+				}
+			}
+		}})
+	register(&Rule{ID: "R125", Name: "CALLBACK-SLICE-PRIVATE", Floor: 80,
+		Text: "no public root calls a user-supplied function (aggregation, apply or filter callback) with a slice whose backing array is memory that existed before the call - column storage or an argument: the values of a group are gathered into a buffer of the operation's own before the function sees them. A callback that sorts or scratches its argument in place (a median) would otherwise rewrite the column under every frame that shares it, and race with concurrent readers. From the same interpretation as R1; one obligation per public root. Pointer arguments are not covered (an enum cell is handed out as a pointer into the dictionary by design, see R66's frozen exceptions)",
+		Run: func(c *Ctx) {
+			p := c.P
+			r := p.purityResult(nil)
+			for _, fn := range r.roots {
+				name := fname(fn)
+				if es := r.cbIn[name]; len(es) > 0 {
+					c.bad(name+"|callback arguments", p.pos(fn.Pos()), fmtEffects(es))
+				} else {
+					c.okTrivial(name+"|callback arguments", p.pos(fn.Pos()), "every slice handed to a user function is allocated by the operation")
 				}
 			}
 		}})
